@@ -4,7 +4,7 @@ CONSTANTS
   Confs <- TraceConfs
   Scopes <- TraceScopes
   MaxDepth = 4
-  KnownDeviations = TRUE
+  KnownDeviations = FALSE
 CONSTRAINT Progress
 POSTCONDITION Verdicts
 CHECK_DEADLOCK FALSE
